@@ -10,6 +10,7 @@ import z3
 
 CVC5 = "/usr/bin/cvc5"
 TIER = os.environ.get("VERIF_TIER", "quick")
+CROSS_CHECK_MS = None        # cap (ms) for the thorough tier's cvc5 cross-check of a VC z3 has already discharged; None = the VC budget
 
 
 def budget_ms():
@@ -87,7 +88,7 @@ def prove(hyps, goal, timeout_ms=None, both=None):
     ms = (time.time() - t0) * 1000
     if r == z3.unsat:
         if both:
-            c = _cvc5(hyps, g, timeout_ms)
+            c = _cvc5(hyps, g, min(timeout_ms, CROSS_CHECK_MS) if CROSS_CHECK_MS else timeout_ms)
             if c == "sat":
                 return Verdict("undecided", "z3+cvc5", ms, reason="z3 says valid, cvc5 finds a counter-model (solver disagreement)")
             return Verdict("discharged", "z3+cvc5" if c == "unsat" else "z3", (time.time() - t0) * 1000)
